@@ -211,7 +211,9 @@ def partial_functions():
     for style in ("rest", "google", "numpydoc"):
         for k in range(0, 4):
             for names in itertools.permutations(SIG, k):
-                for header in ("def f(a, b, c):", "def f(a, b=2, c=3):", "def f(self, a, b, c=3):", "def f(a, *, b, c=1):", "def f(a, b, c, *args, **kwargs):", "def f(a: int, b: Optional[str] = None, c: float = 0.5) -> bool:"):
+                for header in ("def f(a, b, c):", "def f(a, b=2, c=3):", "def f(self, a, b, c=3):", "def f(a, *, b, c=1):", "def f(a, b, c, *args, **kwargs):", "def f(a: int, b: Optional[str] = None, c: float = 0.5) -> bool:",
+                               # positional-only markers: a receiver before the slash, ordinary parameters before the slash
+                               "def f(self, /, a, b, c=3):", "def f(cls, /, a, b=2, c=3):", "def f(a, /, b, c=1):", "def f(a, b=2, /, c=3):"):
                     for indent in (False, True):
                         doc = doc_for(style, list(names))
                         if header.endswith("**kwargs):") and k == 3:
@@ -475,7 +477,7 @@ def run(case):
                     ir_ft = cdd.function.parse.function(ast.parse(src).body[0], function_type=ft)
                 except Exception:
                     continue
-                if key["header"].startswith("def f(self") is False:
+                if not key["header"].startswith(("def f(self", "def f(cls")):
                     want = [a.arg for a in fn.args.posonlyargs + fn.args.args + fn.args.kwonlyargs]
                     got = [g for g in ir_ft["params"] if g in want]
                     if sorted(got) != sorted(want):
